@@ -30,7 +30,12 @@ def Cell.cmpL : List Cell → List Cell → Ordering
   | a :: as, b :: bs => (Cell.cmp a b).then (Cell.cmpL as bs)
 end
 
-def sortCells (cs : List Cell) : List Cell := cs.mergeSort (fun a b => Cell.cmp a b != .gt)
+/-- Insertion into a sorted list (structural recursion, so that closed instances reduce in the kernel). -/
+def insertCell (c : Cell) : List Cell → List Cell
+  | [] => [c]
+  | d :: ds => if Cell.cmp c d != .gt then c :: d :: ds else d :: insertCell c ds
+
+def sortCells (cs : List Cell) : List Cell := cs.foldr insertCell []
 
 /-- Canonical reduction cell. -/
 def mkRed (f : String) (cs : List Cell) : Cell :=
